@@ -104,14 +104,33 @@ Definition tbl_exec (o : iop) (T : table) : option table :=
   | IList => Some T
   end.
 
-(* `iptables -nL`: one "Chain <name> (...)" header per chain, a column
-   header, the rule lines (never starting with "Chain <name> " — rule lines
-   start with the target column and are rendered abstractly here), a blank. *)
+(* `iptables -nL`: per chain a "Chain <name> (...)" header, a column header,
+   one line per rule, a blank line.  A rule line starts with the target column
+   (`%-9s `: the target name padded to 9), then the protocol/address columns
+   (abstract here), then the rule's match and target text; the model prints
+   every argv token of the rule VERBATIM there, so whatever bytes a rule
+   carries in a free-text position (`-m comment --comment <bytes>`: the kernel
+   stores and iptables prints comment bytes as they are, valid UTF-8 or not)
+   appear in the listing as they are.  Chain names are printed verbatim too
+   (iptables refuses white space in a chain name, nothing else). *)
+Fixpoint first_word (b : bytes) : bytes :=
+  match b with
+  | [] => []
+  | a :: b' => if Ascii.eqb a " "%char then [] else a :: first_word b'
+  end.
+
+Definition pad_to (n : nat) (b : bytes) : bytes := b ++ repeat " "%char (n - length b).
+
+Definition rule_line (r : rule) : bytes :=
+  pad_to 9 (match jump_target r with Some t => first_word t | None => [] end) ++
+  " "%char :: bs "0    --  0.0.0.0/0            0.0.0.0/0           " ++
+  flat_map (fun t : tok => " "%char :: t) r.
+
 Definition listing (T : table) : list bytes :=
   flat_map (fun ch : chain =>
               [bs "Chain " ++ fst ch ++ bs " (" ++ bs "policy ACCEPT)";
-               bs "target     prot opt source               destination";
-               []]) T.
+               bs "target     prot opt source               destination"] ++
+              map rule_line (snd ch) ++ [[]]) T.
 
 Fixpoint starts_with (p l : bytes) : bool :=
   match p, l with
@@ -120,9 +139,59 @@ Fixpoint starts_with (p l : bytes) : bool :=
   | _ :: _, [] => false
   end.
 
-(* linux.py:23-25  line.startswith('Chain %s ' % name) *)
+(* linux.py:23  output.decode('ASCII', errors='replace'): every byte below 0x80 is
+   that code point, every other byte becomes U+FFFD; the decoder is total *)
+Inductive uchar := UA (a : ascii) | URepl.
+
+Definition uchar_eqb (x y : uchar) : bool :=
+  match x, y with
+  | UA a, UA b => Ascii.eqb a b
+  | URepl, URepl => true
+  | _, _ => false
+  end.
+
+Definition ascii7 (a : ascii) : bool :=
+  match a with Ascii _ _ _ _ _ _ _ b7 => negb b7 end.
+
+Definition decode_replace (b : bytes) : list uchar :=
+  map (fun a : ascii => if ascii7 a then UA a else URepl) b.
+
+(* a Python str given by its code points 0..255 (the chain name is built from
+   'sshuttle-%s' % port, nat.py:31 / tproxy.py:134-136) *)
+Definition ustr (b : bytes) : list uchar := map UA b.
+
+Fixpoint ustarts_with (p l : list uchar) : bool :=
+  match p, l with
+  | [], _ => true
+  | a :: p', b :: l' => if uchar_eqb a b then ustarts_with p' l' else false
+  | _ :: _, [] => false
+  end.
+
+(* linux.py:24  line.startswith('Chain %s ' % name) *)
+Definition chain_pattern (name : tok) : list uchar := ustr (bs "Chain " ++ name ++ bs " ").
+
+(* linux.py:23-25 on the lines of the listing (one element per line the kernel prints) *)
 Definition chain_in_listing (name : tok) (lines : list bytes) : bool :=
-  existsb (starts_with (bs "Chain " ++ name ++ bs " ")) lines.
+  existsb (fun l : bytes => ustarts_with (chain_pattern name) (decode_replace l)) lines.
+
+(* the same on the raw output bytes, as the code does it: decode, then .split('\n').
+   It coincides with chain_in_listing when no printed line contains a line feed
+   (Proofs/FwLife_lemmas.v chain_in_output_lines); a rule whose text contains one
+   prints as several lines — finding F90. *)
+Definition is_lf (c : uchar) : bool := uchar_eqb c (UA "010"%char).
+
+Fixpoint usplit (l : list uchar) : list (list uchar) :=
+  match l with
+  | [] => [[]]
+  | c :: l' =>
+      match usplit l' with
+      | cur :: rest => if is_lf c then [] :: cur :: rest else (c :: cur) :: rest
+      | [] => [[c]]
+      end
+  end.
+
+Definition chain_in_output (name : tok) (out : bytes) : bool :=
+  existsb (ustarts_with (chain_pattern name)) (usplit (decode_replace out)).
 
 (* ------------------------------------------------------------------ *)
 (* nft: inet tables                                                     *)
@@ -411,12 +480,6 @@ Definition argv (c : cmd) : list tok :=
 (* ------------------------------------------------------------------ *)
 (* parsing argv back (used by the co-process driver, so that the real     *)
 (* code's commands are interpreted by this same model)                    *)
-
-Fixpoint first_word (b : bytes) : bytes :=
-  match b with
-  | [] => []
-  | a :: b' => if Ascii.eqb a " "%char then [] else a :: first_word b'
-  end.
 
 Definition parse_iop (args : list tok) : option iop :=
   match args with
